@@ -68,7 +68,7 @@ PROPS = {
         engine="step-harness",
     ),
     "C07": dict(
-        lean_modules=["Swim.Lemmas.Merge", "Swim.Props.C07", 'Swim.Model.Cluster', 'Swim.Props.Cluster', 'Swim.Props.Projection', "Swim.Props.GenTie.State"],
+        lean_modules=["Swim.Lemmas.Merge", "Swim.Props.C07", 'Swim.Model.Cluster', 'Swim.Props.Cluster', 'Swim.Props.Projection', "Swim.Props.GenTie.State", "Swim.Props.GenTie.Lists"],
         tests="^TestC07$",
         shards_quick=8,
         rule='random histories of 1-40 operations of every kind (claims, merges, timer callbacks incl. stale ones, reaping, UpdateNode, Leave, ageing); the event log of every step is replayed on the Members() view before the step and compared with Members() after it (names, address, metadata); non-trivial/distinct as C01',
@@ -81,7 +81,7 @@ PROPS = {
         engine="step-harness",
     ),
     "C08": dict(
-        lean_modules=["Swim.Lemmas.Merge", "Swim.Props.C08", 'Swim.Model.Cluster', 'Swim.Props.Cluster', 'Swim.Props.ClusterG', 'Swim.Props.C08Cluster', 'Swim.Props.Projection', 'Swim.Props.C03Cluster', 'Swim.Props.C04Cluster', 'Swim.Props.C08Final', "Swim.Model.Select", "Swim.Props.Select", "Swim.Props.GenTie.Select"],
+        lean_modules=["Swim.Lemmas.Merge", "Swim.Props.C08", 'Swim.Model.Cluster', 'Swim.Props.Cluster', 'Swim.Props.ClusterG', 'Swim.Props.C08Cluster', 'Swim.Props.Projection', 'Swim.Props.C03Cluster', 'Swim.Props.C04Cluster', 'Swim.Props.C08Final', "Swim.Model.Select", "Swim.Props.Select", "Swim.Props.GenTie.Select", "Swim.Props.GenTie.Lists"],
         tests="^TestC08(Sim)?$",
         shards_quick=8,
         rule='the C01 table (address same/other/disallowed/v4-mapped x prior state x aged x reclaim) judged by the hijack/reuse/departure predicate, plus random histories with Leave; non-trivial/distinct as C01 (sel) member selection: moveDeadNodes on lists of 0-40 records with ages at and around the window, kRandomNodes (k 0-6, list lengths around 3k, random exclusion sets) on a seeded generator - the draws of randomOffset and the permutation of shuffleNodes are observed first, then the generator is reseeded - both compared exactly (order and index) with Swim/Model/Select.lean; the members a real node addresses in gossip(), pushPull() and the indirect-ping round of probeNode() (records alive/suspect/dead/left, ages at the gossip-to-the-dead window) judged by the conclusions of the selection theorems under the model\'s exclusion rule',
@@ -94,7 +94,7 @@ PROPS = {
         engine="step-harness",
     ),
     "C18": dict(
-        lean_modules=["Swim.Lemmas.Merge", "Swim.Props.C18", 'Swim.Model.Cluster', 'Swim.Props.Cluster', 'Swim.Props.Projection', "Swim.Props.Handoff", "Swim.Props.C18Parse"],
+        lean_modules=["Swim.Lemmas.Merge", "Swim.Props.C18", 'Swim.Model.Cluster', 'Swim.Props.Cluster', 'Swim.Props.Projection', "Swim.Props.Handoff", "Swim.Props.C18Parse", "Swim.Props.GenTie.Lists"],
         tests="^TestC18$",
         shards_quick=8,
         rule='random histories with the allow-list on (10.0.0.0/8, fd00::/8) and half of the claimed addresses drawn from outside / malformed / IPv6 / v4-mapped classes, over direct alive claims, push/pull entries, address changes and name reclaims; every record and join event after every step must carry an allowed address; non-trivial/distinct as C01',
@@ -180,7 +180,7 @@ PROPS = {
         engine="codec-harness",
     ),
     "C06": dict(
-        lean_modules=["Swim.Model.Susp", "Swim.Lemmas.Merge", "Swim.Props.C06", 'Swim.Gen.Facts', 'Swim.Props.C06Facts', 'Swim.Props.C06History', 'Swim.Model.Cluster', 'Swim.Props.Cluster', 'Swim.Props.Projection', 'Swim.Props.C06Cluster', "Swim.Props.Scale"],
+        lean_modules=["Swim.Model.Susp", "Swim.Lemmas.Merge", "Swim.Props.C06", 'Swim.Gen.Facts', 'Swim.Props.C06Facts', 'Swim.Props.C06History', 'Swim.Model.Cluster', 'Swim.Props.Cluster', 'Swim.Props.Projection', 'Swim.Props.C06Cluster', "Swim.Props.Scale", "Swim.Props.GenTie.Lists"],
         tests="^TestC06$",
         rule=("(susp) timed confirmation scripts on the real suspicion timer in virtual time (testing/synctest): k in {0,1,2,3,4,6}, minimum timeouts "
               "incl. values that are not whole milliseconds, max = 1,2,6 x min, up to 8 confirmations from 7 names incl. the accuser and duplicates at "
@@ -199,7 +199,7 @@ PROPS = {
         engine="step-harness+synctest",
     ),
     "C09": dict(
-        lean_modules=["Swim.Model.Verify", "Swim.Lemmas.Merge", "Swim.Props.C09", 'Swim.Model.Cluster', 'Swim.Props.Cluster', 'Swim.Props.ClusterG', 'Swim.Props.Projection', 'Swim.Props.C05Recover', 'Swim.Props.C09Cluster', "Swim.Model.Msgpack", "Swim.Props.Msgpack"],
+        lean_modules=["Swim.Model.Verify", "Swim.Lemmas.Merge", "Swim.Props.C09", 'Swim.Model.Cluster', 'Swim.Props.Cluster', 'Swim.Props.ClusterG', 'Swim.Props.Projection', 'Swim.Props.C05Recover', 'Swim.Props.C09Cluster', "Swim.Model.Msgpack", "Swim.Props.Msgpack", "Swim.Model.Codec", "Swim.Props.C16", "Swim.Lemmas.Merge", "Swim.Props.C06"],
         tests="^TestC09$",
         shards_quick=4,
         rule=("(vp) verifyProtocol on local tables of 1-4 records (alive/suspect/dead, admitted version vectors or none) against remote lists of 0-3 "
@@ -303,7 +303,7 @@ PROPS = {
         engine="cluster-simulator",
     ),
     "C20": dict(
-        lean_modules=['Swim.Model.Merge', 'Swim.Props.C20', 'Swim.Model.Lifecycle'],
+        lean_modules=['Swim.Model.Merge', 'Swim.Props.C20', 'Swim.Model.Lifecycle', "Swim.Props.GenTie.Lists"],
         tests="^TestC20$",
         timeout_quick=400,
         shards_quick=4,
